@@ -78,10 +78,16 @@ class NativeEval(object):
         raise NotEvaluable("name " + n.id)
 
     def e_Attribute(self, n, pol):
-        return _num(getattr(self.ev(n.value), n.attr))
+        try:
+            return _num(getattr(self.ev(n.value), n.attr))
+        except AttributeError:
+            raise NotEvaluable("attribute " + n.attr)
 
     def e_Subscript(self, n, pol):
-        return _num(self.ev(n.value)[self.ev(n.slice)])
+        try:
+            return _num(self.ev(n.value)[self.ev(n.slice)])
+        except (IndexError, KeyError, TypeError):
+            raise NotEvaluable("subscript")
 
     def e_Tuple(self, n, pol):
         return tuple(self.ev(e) for e in n.elts)
